@@ -8,7 +8,7 @@ from __future__ import annotations
 import ast
 import os
 from dataclasses import dataclass, field
-from typing import Dict, List, Optional, Tuple, Union
+from typing import Dict, List, Optional, Set, Tuple, Union
 
 from .normal import normalise
 
@@ -177,11 +177,102 @@ class Program:
                 self.modules[name] = mod
         for mod in self.modules.values():
             self._index_module(mod)
+        self._inline_generator_helpers()
         # `cls.methods.get(name)` also finds a method the class inherits (a method merged into / moved to a base class is still
         # the class's method); iteration, `in`, len() and [] keep meaning the class's OWN definitions
         for mod in self.modules.values():
             for ci in mod.classes.values():
                 ci.methods = _Methods(ci.methods, self, ci)
+
+    def _inline_generator_helpers(self) -> None:
+        """Normal form N8 (needs the call resolver, hence here and not in normal.py):
+
+            yield from self._helper(a, b)      ==>      _helper__p = a; _helper__q = b
+                                                        <body of _helper, parameters and locals renamed with the prefix>
+
+        for a PRIVATE synchronous generator helper (`_name`, undecorated, no default-less surprises: positional parameters only,
+        no `return` statement, no nested definitions, not recursive) used in statement position. The arguments are evaluated
+        once, in order, before the body - exactly what the call does; the helper's locals get names that cannot clash."""
+        import copy
+
+        def private(fi: FuncInfo) -> bool:
+            return fi.name.startswith("_") and not fi.name.startswith("__") and all(d in ("staticmethod",) for d in fi.decorators)
+
+        changed_mods = set()
+        self.inlined_generators: Set[str] = set()
+        for mod in self.modules.values():
+            for fn in list(mod.all_funcs):
+                if isinstance(fn.node, ast.AsyncFunctionDef):
+                    continue
+                for _round in range(2):
+                    sites = []
+                    for n in walk_shallow(fn.node):
+                        if isinstance(n, ast.Expr) and isinstance(n.value, ast.YieldFrom) and isinstance(n.value.value, ast.Call):
+                            sites.append(n)
+                    did = False
+                    for site in sites:
+                        call = site.value.value
+                        try:
+                            h = self.resolve_call(fn, call)
+                        except Exception:
+                            h = None
+                        if not isinstance(h, FuncInfo) or h is fn or not private(h) or not h.is_generator() or isinstance(h.node, ast.AsyncFunctionDef):
+                            continue
+                        a = h.node.args
+                        if a.vararg or a.kwarg or a.kwonlyargs or a.posonlyargs or call.keywords or any(isinstance(x, ast.Starred) for x in call.args):
+                            continue
+                        if any(isinstance(x, (ast.Return, ast.FunctionDef, ast.AsyncFunctionDef, ast.Lambda, ast.ClassDef, ast.Global, ast.Nonlocal)) for x in ast.walk(h.node) if x is not h.node):
+                            continue
+                        params = [x.arg for x in a.args]
+                        args = list(call.args)
+                        is_method = h.cls is not None and "staticmethod" not in h.decorators
+                        if is_method:
+                            if not (isinstance(call.func, ast.Attribute) and isinstance(call.func.value, ast.Name) and call.func.value.id in ("self", "cls")):
+                                continue
+                            recv_name = call.func.value.id
+                            bind_params = params[1:]
+                            self_param = params[0]
+                        else:
+                            bind_params = params
+                            self_param = None
+                            recv_name = None
+                        ndef = len(a.defaults)
+                        if len(args) > len(bind_params) or len(args) < len(bind_params) - ndef:
+                            continue
+                        defaults = dict(zip(params[len(params) - ndef:], a.defaults))
+                        prefix = f"_{h.name.strip('_')}__"
+                        locals_ = {x.id for x in ast.walk(h.node) if isinstance(x, ast.Name) and isinstance(x.ctx, (ast.Store, ast.Del))} | set(bind_params)
+                        ren = {nm: prefix + nm for nm in locals_}
+                        if self_param is not None:
+                            ren[self_param] = recv_name
+                        pre = []
+                        for i, pn in enumerate(bind_params):
+                            val = args[i] if i < len(args) else copy.deepcopy(defaults[pn])
+                            pre.append(ast.copy_location(ast.Assign(targets=[ast.copy_location(ast.Name(id=ren[pn], ctx=ast.Store()), site)], value=val, type_comment=None), site))
+                        body = [copy.deepcopy(st) for st in h.node.body if not (isinstance(st, ast.Expr) and isinstance(st.value, ast.Constant))]
+                        for st in body:
+                            for x in ast.walk(st):
+                                if isinstance(x, ast.Name) and x.id in ren:
+                                    x.id = ren[x.id]
+                        new_stmts = pre + body
+                        par = getattr(site, "_parent", None)
+                        placed = False
+                        for fld in ("body", "orelse", "finalbody"):
+                            blk = getattr(par, fld, None)
+                            if isinstance(blk, list) and site in blk:
+                                i = blk.index(site)
+                                blk[i:i + 1] = new_stmts
+                                placed = True
+                        if placed:
+                            self.inlined_generators.add(h.fq)
+                            did = True
+                            changed_mods.add(mod.name)
+                            ast.fix_missing_locations(fn.node)
+                            set_parents(mod.tree)
+                    if not did:
+                        break
+        for name in changed_mods:
+            set_parents(self.modules[name].tree)
 
     def _resolve_relative(self, mod: Module, level: int, target: Optional[str]) -> str:
         if level == 0:
